@@ -359,20 +359,28 @@ def hex_norm(toks, top=True):
     return out or [["b", 0x61]]
 
 
-def regex_uniform(n, greedy):
-    """libyara rejects a regex that mixes greedy and lazy quantifiers"""
+def regex_uniform(n, greedy, inside=False):
+    """libyara rejects a regex that mixes greedy and lazy quantifiers.  Also: an unbounded repetition nested in an
+    unbounded repetition (`(.+.*b?)*`) is made bounded — the reference matcher of Spec/Regex.v takes minutes on it
+    under vm_compute (evaluation cost only; the engines do not care)."""
     t = n[0]
     if t in ("alt", "cat"):
-        return [t, [regex_uniform(x, greedy) for x in n[1]]]
+        return [t, [regex_uniform(x, greedy, inside) for x in n[1]]]
     if t == "group":
-        return [t, regex_uniform(n[1], greedy)]
+        return [t, regex_uniform(n[1], greedy, inside)]
     if t == "rep":
         k = n[2]
+        unbounded = k[0] in ("*", "+", "n,")
+        if unbounded and inside:
+            lo = 1 if k[0] == "+" else (k[1] if k[0] == "n," else 0)
+            k = ["n,m", lo, lo + 2]
+            unbounded = False
+        inside = inside or unbounded
         if k[0] == "n" and k[1] == 0:
             # `x{0}` inside a repeated group sends libyara 4.5.5's regex engine into an endless loop
             # (`/1_(x{0}b)+\\x2e/` on `1_b.`): not generated
             k = ["n", 1]
-        return [t, regex_uniform(n[1], greedy), k, greedy]
+        return [t, regex_uniform(n[1], greedy, inside), k, greedy]
     return n
 
 
@@ -496,8 +504,36 @@ _C02 = c02.C02()
 _C03 = c03.C03()
 
 
+RAW_CLASSES = [
+    ["br", [["range", 0x30, 0x39], ["lit", 0x3a]], False],            # [0-9:]
+    ["br", [["range", 0x61, 0x63], ["lit", 0x2d]], False],            # [a-c-]
+    ["br", [["perl", "d", False], ["lit", 0x2e]], False],             # [\d.]
+    ["br", [["range", 0x41, 0x42], ["lit", 0x20], ["lit", 0x5f]], False],
+    ["perl", "w", False], ["perl", "d", False],
+    ["br", [["lit", 0x78]], True],                                    # [^x]
+]
+
+
+def gen_raw_fullword(rng, name):
+    """a regex made of classes only (no literal to extract: boreal scans it on its own, candidate after candidate),
+    of a single length, with fullword; its classes mix alphanumeric and other bytes, so that a delimited candidate can
+    start inside a rejected one (`/[0-9:]{5}/ fullword` on `a12:34:56`)"""
+    pieces = []
+    for _ in range(rng.range(1, 3)):
+        c = rng.choice(RAW_CLASSES)
+        if rng.chance(2, 3):
+            pieces.append(["rep", ["class", c], ["n", rng.range(2, 5)], True])
+        else:
+            pieces.append(["class", c])
+    node = pieces[0] if len(pieces) == 1 else ["cat", pieces]
+    mods = {"nocase": False, "wide": False, "ascii": False, "fullword": True}
+    return {"name": name, "kind": "regex", "node": node, "ci": False, "da": rng.chance(1, 3), "mods": mods, "raw": True}
+
+
 def gen_string(rng, name):
-    k = rng.below(10)
+    k = rng.below(11)
+    if k == 10:
+        return gen_raw_fullword(rng, name)
     if k < 4:
         for _ in range(20):
             d = c01.gen_decl(rng)
@@ -515,7 +551,8 @@ def gen_string(rng, name):
             # libyara also accepts the xored *ascii* form of a wide-only xor string when an atom of the wide form
             # happens to hit (its verification tries the ascii comparison whatever the modifiers): not generated
             d["ascii"] = True
-        if d["xor"] is not None and d["xor"][1] - d["xor"][0] > 40 and rng.chance(2, 3):
+        if d["xor"] is not None and d["xor"][1] - d["xor"][0] > 40 and (rng.chance(2, 3) or len(d["text"]) < 6):
+            # (texts shorter than 3 bytes under a wide key range match almost everywhere: half a minute of vm_compute)
             d["xor"] = [d["xor"][0], d["xor"][0] + rng.range(0, 8)]
         return {"name": name, "kind": "text", "decl": d}
     if k < 7:
@@ -565,6 +602,13 @@ def member(rng, s, alphabet):
     if k == "hex":
         return hex_member7(rng, s["toks"], alphabet)[:48], False
     m = s["mods"]
+    if s.get("raw"):
+        # overlapping candidates: an alphanumeric byte, then two or three members end to end
+        alpha = [0x30, 0x31, 0x39, 0x3a, 0x61, 0x62, 0x2d, 0x2e, 0x20, 0x5f, 0x41, 0x78]
+        b = b"".join(c03.sample(rng, s["node"], False, s["da"], alpha) for _ in range(rng.range(1, 3)))
+        if rng.chance(1, 2):
+            b = bytes([rng.choice(b"a1Z9")]) + b
+        return b[:30], False
     b = c03.sample(rng, s["node"], s["ci"] or m["nocase"], s["da"], alphabet)[:30]
     if m["wide"] and (not m["ascii"] or rng.chance(1, 2)):
         return c03.widen(b), True
@@ -632,6 +676,49 @@ def hinted_atom(rng, v, o, l):
     return ("forlist", rng.choice(["any", "all", "none"]), None, [("int", o1), ("int", o + l)], ("varat", v, ("bound", 0)))
 
 
+def heavy_regex(s):
+    """a regex whose reference evaluation (Spec/Regex.v `ends`: ordered, duplicate-free lists of end offsets, computed
+    from every start) grows like the 4th-5th power of the input length: an unbounded repetition, or two or more
+    bounded ones, over something wider than a literal"""
+    if s["kind"] != "regex":
+        return False
+    cnt = [0, 0]
+
+    def walk(n):
+        t = n[0]
+        if t in ("alt", "cat"):
+            for x in n[1]:
+                walk(x)
+        elif t == "group":
+            walk(n[1])
+        elif t == "rep":
+            wide_body = n[1][0] != "lit"
+            if n[2][0] in ("*", "+", "n,") and wide_body:
+                cnt[0] += 1
+            elif wide_body and n[2][0] in ("?", "n,m"):
+                cnt[1] += 1
+            walk(n[1])
+    walk(s["node"])
+    return cnt[0] >= 1 or cnt[1] >= 3
+
+
+def nested_of_atom(rng, nstr):
+    """`for K of (set) : ( <N of (set2)> op <anonymous reference> )`: the anonymous string must still be the loop's after
+    the nested set quantifier"""
+    vs = sorted(set(rng.below(nstr) for _ in range(rng.range(1, nstr + 1))))
+    vs2 = sorted(set(rng.below(nstr) for _ in range(rng.range(1, nstr + 1))))
+    inner = ("of", rng.choice(["any", "all", "none", "expr"]), ("int", rng.choice([1, 1, 2])), vs2)
+    if inner[1] != "expr":
+        inner = ("of", inner[1], None, vs2)
+    anon = rng.choice([("var", None), ("bin", "ge", ("count", None), ("int", 1)),
+                       ("varat", None, ("int", rng.choice([0, 1, 2, 5]))),
+                       ("bin", "ge", ("offset", None, ("int", 1)), ("int", 0)),
+                       ("varin", None, ("int", 0), ("int", rng.choice([10, 40, 100])))])
+    parts = [inner, anon] if rng.chance(3, 4) else [anon, inner, anon]
+    body = (rng.choice(["and", "and", "or"]), parts)
+    return ("for", rng.choice(["any", "all", "any", "none"]), None, vs, body)
+
+
 def gen_case(rng, kf_global=False):
     nns = rng.range(1, 2)
     nrules = rng.range(1, 4)
@@ -651,7 +738,9 @@ def gen_case(rng, kf_global=False):
         rules.append(r)
     # 2. inputs, remembering where members were put
     hints = [[] for _ in range(3)]
-    inputs = [gen_input(rng.fork("i%d" % k), keyed, hints=hints[k]) for k in range(3)]
+    # shorter inputs when a string is expensive to evaluate in Coq (cost of the check, not of the engines)
+    limit = 22 if any(heavy_regex(s) for _, s in keyed) else 72
+    inputs = [gen_input(rng.fork("i%d" % k), keyed, limit=limit, hints=hints[k]) for k in range(3)]
     all_hints = [h for hs in hints for h in hs]
     # 3. conditions
     for i, r in enumerate(rules):
@@ -663,7 +752,9 @@ def gen_case(rng, kf_global=False):
         mine = [(k[1], o, l) for k, o, l in all_hints if k[0] == i]
 
         def leaf():
-            c = rng.below(12)
+            c = rng.below(13)
+            if c == 12:
+                return nested_of_atom(rng, nstr) if nstr else ("bool", True)
             if c < 3 and mine:
                 return hinted_atom(rng, *rng.choice(mine))
             if c < 6 and nstr:
